@@ -229,6 +229,12 @@ def limit_streams():
                 for nf, e in ((H + 1, "limit"), (H - 2, "ok")):
                     hs = "".join(f"X-{i}: v\r\n" for i in range(nf - 1))
                     out.append((limits, f"header_count={nf}", 0, "request", ("GET / HTTP/1.1\r\nHost: a\r\n" + hs + "\r\n").encode(), e))
+                # a header block that is just within the count limit, on a chunked message without trailers: the limit on
+                # fields covers headers and trailers together, but a message whose headers pass must be completable
+                if delta == 0:
+                    hs2 = "".join(f"X-{i}: v\r\n" for i in range(H - 2 - 2))
+                    out.append((limits, "full_header_block_chunked", 0, "request",
+                                ("POST / HTTP/1.1\r\nHost: a\r\nTransfer-Encoding: chunked\r\n" + hs2 + "\r\n3\r\nabc\r\n0\r\n\r\n").encode(), "ok"))
                 # chunk-size line (extension padding) and trailer
                 base = "POST / HTTP/1.1\r\nHost: a\r\nTransfer-Encoding: chunked\r\n\r\n"
                 out.append((limits, "chunk_size_line", delta, "request", (base + pad("3;x=", L + delta) + "\r\nabc\r\n0\r\n\r\n").encode(), exp))
